@@ -254,9 +254,11 @@ class RegistryEngine:
     ]
     rule_text = (
         "seeded histories (4-14 ops) over register(valid module | "
-        "NaniteFitModel | module with own wrappers | every single-fault "
-        "mutant), deregister, load_model_from_file(valid | missing | syntax "
-        "error | raises at import | directory already on sys.path | same "
+        "NaniteFitModel | module with own wrappers | module with its own "
+        "model wrapper only | every single-fault mutant incl. 'recipe "
+        "missing'), deregister, load_model_from_file(valid | missing | "
+        "syntax error | nine kinds of code raising at import | directory "
+        "already on sys.path | same "
         "stem in another directory | edited and reloaded; register flag; "
         "dont_write_bytecode preset either way) and ancillary seeding with "
         "seeded values incl. NaN; all single-fault mutants are enumerated "
